@@ -19,6 +19,7 @@ type Env struct {
 	at    *ssa.BasicBlock // loop header where names are resolved
 	pkg   *types.Package
 	bound map[string]bool
+	qdepth int
 }
 
 func (fx *fnExec) baseEnv(cur *State) *Env {
@@ -152,7 +153,10 @@ func (fx *fnExec) eval(e *Expr, env *Env) TV {
 			if e.Args[2] != nil {
 				hi = fx.evalInt(e.Args[2], env)
 			}
-			return TV{SliceV{Elem: b.Elem, Len: sub(hi, lo), Off: add(b.Off, lo), Nil: b.Nil, Elems: b.Elems}, base.T}
+			if lo != "0" {
+				panic(contractErr("slice expression with non-zero lower bound on a slice"))
+			}
+			return TV{SliceV{Elem: b.Elem, Len: sub(hi, lo), Off: "0", Nil: b.Nil, Elems: b.Elems}, base.T}
 		}
 		panic(contractErr("slice on " + fmt.Sprintf("%T", base.V)))
 	case "un":
@@ -165,10 +169,20 @@ func (fx *fnExec) eval(e *Expr, env *Env) TV {
 	case "bin":
 		return fx.evalBin(e, env)
 	case "forall", "exists":
-		v := fmt.Sprintf("%s!q%d", e.Name, len(fx.s.Items))
+		v := fmt.Sprintf("%s!b%d", e.Name, env.qdepth)
 		env2 := env.with(e.Name, TV{Sc{sym(v), SInt}, tInt})
+		env2.qdepth = env.qdepth + 1
 		body := fx.evalBool(e.Args[0], env2)
 		fx.s.usesQuant = true
+		if e.Op == "forall" {
+			if trg := triggers(body, sym(v)); len(trg) > 0 && len(trg) <= 6 {
+				var pats []string
+				for _, t := range trg {
+					pats = append(pats, ":pattern ("+t+")")
+				}
+				body = "(! " + body + " " + strings.Join(pats, " ") + ")"
+			}
+		}
 		return TV{Sc{fmt.Sprintf("(%s ((%s Int)) %s)", e.Op, sym(v), body), SBool}, tBool}
 	case "call":
 		return fx.evalCall(e, env)
@@ -226,7 +240,7 @@ func (fx *fnExec) selectField(base TV, name string, env *Env) TV {
 	g := fx.g
 	// auto-deref chain via go/types
 	t := base.T
-	obj, index, _ := types.LookupFieldOrMethod(t, true, env.pkg, name)
+	obj, index := lookupField(t, env.pkg, name)
 	fld, ok := obj.(*types.Var)
 	if !ok || !fld.IsField() {
 		panic(contractErr(fmt.Sprintf("no field %s in %v", name, t)))
@@ -318,7 +332,7 @@ func (fx *fnExec) evalBin(e *Expr, env *Env) TV {
 		case SliceV:
 			bv, ok := b.V.(SliceV)
 			if ok {
-				cs := []string{eq(av.Len, bv.Len), eq(av.Off, bv.Off), eq(av.Nil, bv.Nil)}
+				cs := []string{eq(av.Len, bv.Len), eq(av.Nil, bv.Nil)}
 				for i := range av.Elems {
 					cs = append(cs, eq(av.Elems[i], bv.Elems[i]))
 				}
@@ -468,6 +482,51 @@ func (fx *fnExec) evalCall(e *Expr, env *Env) TV {
 		}
 		return TV{Sc{app(f, args...), SBool}, tBool}
 	}
+	if e.Name == "reveal" {
+		inner := e.Args[0]
+		sd, ok := g.cs.Specs[inner.Name]
+		if inner.Op != "call" || !ok || !sd.Opaque {
+			panic(contractErr("reveal expects an opaque spec application"))
+		}
+		u := fx.evalBool(inner, env)
+		env2 := *env
+		env2.vars = map[string]TV{}
+		for k, v := range env.vars {
+			env2.vars[k] = v
+		}
+		for i, p := range sd.Params {
+			env2.vars[p] = fx.eval(inner.Args[i], env)
+		}
+		b := fx.evalBool(sd.Body, &env2)
+		fx.s.assert(eq(u, b))
+		return TV{Sc{"true", SBool}, tBool}
+	}
+	if e.Name == "callresult" {
+		if env.fr == nil {
+			panic(contractErr("callresult outside a loop invariant"))
+		}
+		v, t, ok := env.fr.callResult(e.Args[0].Str, env.at)
+		if !ok {
+			panic(contractErr("callresult: no unique dominating call to " + e.Args[0].Str))
+		}
+		return TV{v, t}
+	}
+	if sd, ok := g.cs.Specs[e.Name]; ok && sd.Opaque {
+		if len(sd.Params) != len(e.Args) {
+			panic(contractErr("arity of " + e.Name))
+		}
+		var args []string
+		var sorts []Sort
+		for _, a := range e.Args {
+			v := fx.eval(a, env)
+			for i, t := range g.toLeaves(v.V) {
+				args = append(args, t)
+				sorts = append(sorts, g.leaves(v.T)[i].S)
+			}
+		}
+		f := fx.s.declFun("spec!"+e.Name, sorts, SBool)
+		return TV{Sc{app(f, args...), SBool}, tBool}
+	}
 	if sd, ok := g.cs.Specs[e.Name]; ok {
 		if len(sd.Params) != len(e.Args) {
 			panic(contractErr("arity of " + e.Name))
@@ -532,7 +591,7 @@ func (fx *fnExec) modLocs(fn *ssa.Function, c *Contract, m *Expr, args []Val, st
 				}
 				cur = TV{fx.load(st, p), pt.Elem()}
 			}
-			obj, index, _ := types.LookupFieldOrMethod(cur.T, true, env.pkg, e.Name)
+			obj, index := lookupField(cur.T, env.pkg, e.Name)
 			fld, ok := obj.(*types.Var)
 			if !ok || !fld.IsField() {
 				panic(contractErr(fmt.Sprintf("modifies: no field %s in %v", e.Name, cur.T)))
@@ -631,4 +690,73 @@ func paramNames(fn *ssa.Function) ([]string, []types.Type) {
 		typs = append(typs, sig.Params().At(i).Type())
 	}
 	return names, typs
+}
+
+// lookupField resolves a (possibly promoted, possibly unexported) field: contracts may name
+// unexported fields of other packages of the module.
+func lookupField(t types.Type, pkg *types.Package, name string) (types.Object, []int) {
+	obj, index, _ := types.LookupFieldOrMethod(t, true, pkg, name)
+	if obj != nil {
+		return obj, index
+	}
+	// breadth-first search over embedded fields, ignoring export rules
+	type item struct {
+		t    types.Type
+		path []int
+	}
+	queue := []item{{t, nil}}
+	for depth := 0; depth < 4 && len(queue) > 0; depth++ {
+		var next []item
+		for _, it := range queue {
+			tt := it.t
+			if p, ok := tt.Underlying().(*types.Pointer); ok {
+				tt = p.Elem()
+			}
+			st, ok := tt.Underlying().(*types.Struct)
+			if !ok {
+				continue
+			}
+			for i := 0; i < st.NumFields(); i++ {
+				f := st.Field(i)
+				path := append(append([]int{}, it.path...), i)
+				if f.Name() == name {
+					return f, path
+				}
+				if f.Embedded() {
+					next = append(next, item{f.Type(), path})
+				}
+			}
+		}
+		queue = next
+	}
+	return nil, nil
+}
+
+// callResult finds the value of the unique call to the named function that dominates block at.
+func (fr *frame) callResult(name string, at *ssa.BasicBlock) (Val, types.Type, bool) {
+	var found ssa.Value
+	for _, b := range fr.fn.Blocks {
+		if !(b == at || b.Dominates(at)) {
+			continue
+		}
+		for _, in := range b.Instrs {
+			c, ok := in.(*ssa.Call)
+			if !ok {
+				continue
+			}
+			callee := c.Common().StaticCallee()
+			if callee == nil || fr.fx.g.funcName(callee) != name {
+				continue
+			}
+			if found != nil {
+				return nil, nil, false
+			}
+			found = c
+		}
+	}
+	if found == nil {
+		return nil, nil, false
+	}
+	v, ok := fr.vals[found]
+	return v, found.Type(), ok
 }
